@@ -139,7 +139,10 @@ func runReinvest(ctx *action.Context, tx action.RawTx) (bool, action.Response) {
 	}
 
 	//Add balance to delegation
-	currentDelegation, _ := ctx.NetwkDelegators.Deleg.WithPrefix(network_delegation.ActiveType).Get(invest.Delegator)
+	currentDelegation, err := ctx.NetwkDelegators.Deleg.WithPrefix(network_delegation.ActiveType).Get(invest.Delegator)
+	if err != nil {
+		return helpers.LogAndReturnFalse(ctx.Logger, balance.ErrBalanceErrorAddFailed, invest.Tags(), err)
+	}
 	newCoin := currentDelegation.Plus(coinAmt)
 	err = ctx.NetwkDelegators.Deleg.WithPrefix(network_delegation.ActiveType).Set(invest.Delegator, &newCoin)
 	if err != nil {
